@@ -83,11 +83,13 @@ func SeedN(label string, i int) [32]byte {
 
 // SignedBatchEntry builds the ExtIDs of a FAT-2 transaction batch entry on
 // config.TransactionChain exactly like fat103.Sign:
-//   ExtIDs[0]      = decimal unix timestamp salt (must be within +-12h of the
-//                    entry timestamp = dblock time + minute)
-//   ExtIDs[1+2i]   = RCD of signer i
-//   ExtIDs[2+2i]   = signature of signer i over
-//                    sha512( decimal(i) | ExtIDs[0] | chainID | content )
+//
+//	ExtIDs[0]      = decimal unix timestamp salt (must be within +-12h of the
+//	                 entry timestamp = dblock time + minute)
+//	ExtIDs[1+2i]   = RCD of signer i
+//	ExtIDs[2+2i]   = signature of signer i over
+//	                 sha512( decimal(i) | ExtIDs[0] | chainID | content )
+//
 // fat2 demands exactly one signer: the single input address of the batch.
 func SignedBatchEntry(contentJSON []byte, keys []SignerKey, tsUnix int64) RawEntry {
 	chainID := config.TransactionChain
@@ -164,14 +166,16 @@ func DefaultAssetValue(version uint8) func(i int, name string) uint64 {
 // accepts for `height`.
 //
 // Entry layout (modules/grader vN_util.go Validate*, modules/testutils/opr.go):
-//   ExtIDs[0] = nonce (8 random bytes here)
-//   ExtIDs[1] = self reported difficulty = first 8 bytes of
-//               LXR.Hash( sha256(content) | nonce ), big endian; the grader
-//               recomputes it with grader.LX and drops mismatches
-//   ExtIDs[2] = version byte
-//   Content   = v1: JSON opr.V1Content (float prices = value/1e8, the node
-//               converts back with round(f*1e8));
-//               v2..v5: protobuf opr.V2Content {Address, ID, Height, Winners, Assets}
+//
+//	ExtIDs[0] = nonce (8 random bytes here)
+//	ExtIDs[1] = self reported difficulty = first 8 bytes of
+//	            LXR.Hash( sha256(content) | nonce ), big endian; the grader
+//	            recomputes it with grader.LX and drops mismatches
+//	ExtIDs[2] = version byte
+//	Content   = v1: JSON opr.V1Content (float prices = value/1e8, the node
+//	            converts back with round(f*1e8));
+//	            v2..v5: protobuf opr.V2Content {Address, ID, Height, Winners, Assets}
+//
 // prevWinners are the 16 hex digit short hashes of the previous graded block
 // (grader WinnersShortHashes); nil/empty means "no previous winners yet":
 // 10 (v1) or 25 empty strings. v2 also accepts a 10 element list (the block
@@ -276,17 +280,19 @@ func GradeOPRSet(version uint8, height int32, prevWinners []string, set []RawEnt
 //
 // Entry layout (modules/graderStake s1_util.go / s2_util.go / s3_util.go and
 // pegnet's spr.CreateSPREntry):
-//   ExtIDs[0] = version byte (5, 6, 7)
-//   ExtIDs[1] = the staker's 32 raw address bytes (RCD hash). pegnetd's GradeS
-//               drops the record unless these bytes are the `address` of one
-//               of the top 100 PEG holders in pn_addresses -- read through a
-//               separate DB connection, i.e. as of the last COMMITTED block.
-//   ExtIDs[2] = ed25519 public key (32) | signature (64) over the content.
-//               Only checked by versions 6 and 7 (v5 just needs 3 ExtIDs);
-//               the key is NOT tied to ExtIDs[1] or the payout address.
-//   Content   = protobuf opr.V2Content {Address: payout FA string (also the
-//               duplicate filter key), Height, Assets: the 74 opr.V5Assets, all
-//               non-zero}; ID and Winners are unused.
+//
+//	ExtIDs[0] = version byte (5, 6, 7)
+//	ExtIDs[1] = the staker's 32 raw address bytes (RCD hash). pegnetd's GradeS
+//	            drops the record unless these bytes are the `address` of one
+//	            of the top 100 PEG holders in pn_addresses -- read through a
+//	            separate DB connection, i.e. as of the last COMMITTED block.
+//	ExtIDs[2] = ed25519 public key (32) | signature (64) over the content.
+//	            Only checked by versions 6 and 7 (v5 just needs 3 ExtIDs);
+//	            the key is NOT tied to ExtIDs[1] or the payout address.
+//	Content   = protobuf opr.V2Content {Address: payout FA string (also the
+//	            duplicate filter key), Height, Assets: the 74 opr.V5Assets, all
+//	            non-zero}; ID and Winners are unused.
+//
 // 25 distinct payout addresses are needed for winners.
 func GenSPRSet(rng *rand.Rand, version uint8, height int32, n int,
 	assetValue func(i int, name string) uint64, stakers []StakerKey) []RawEntry {
